@@ -244,8 +244,8 @@ class HttpDataTransform:
     """Transform and recover Cobalt Strike HTTP C2 data using transformation steps."""
 
     def __init__(self, steps: List[TransformStep], reverse: bool = False, build: str = None) -> None:
-        self.tsteps: List[TransformStep] = steps
-        self.rsteps: List[TransformStep] = steps[::-1]
+        self.tsteps: List[TransformStep] = list(steps)
+        self.rsteps: List[TransformStep] = list(steps)[::-1]
 
         if reverse:
             self.tsteps, self.rsteps = self.rsteps, self.tsteps
